@@ -71,6 +71,9 @@ CONSTANTS
   PGPS,                 \* PGP/MIME type of the message: subset of {"", "encrypted", "signed"} (X02)
   STYLES,               \* how the configuration reaches the message: "" = options at construction, "set" = the setter methods of Msg and Part afterwards
   MWS,                  \* middlewares of the caller ("" = none, "attach", "body"): applied by every render before signing
+  CHARSETS,             \* charset of the message: subset of {"", "latin1"}; "" = UTF-8. With "latin1" the caller hands the texts the library
+                        \* labels with the message charset (subject, generic headers, descriptions, file names) over as ISO-8859-1 octets
+  PCHARSETS,            \* charset of the body parts where it differs from the message's: subset of {"", "latin1", "utf8"}
   SMIMES,               \* S/MIME signing (C08): set of [key, inter]; key "" = unsigned
   ROUNDTRIP,            \* subset of BOOLEAN: parse the rendering with the EML parser and render again (C10)
   FAULTS                \* render faults (C12): records [kind, slot, when]; kind "none" = no fault
@@ -94,10 +97,11 @@ AllProgs ==
     parts  |-> [k \in 1..np |-> PartSpec(k, rot + np + 2 * ne + 3 * na, pe[k], k = dl, IF k = np THEN pd ELSE "")],
     embeds |-> [k \in 1..ne |-> FileSpec(k, rot + np + ne, fe, TRUE, IF k = 1 THEN fd ELSE "", IF k = 1 THEN fn ELSE "", fc)],
     atts   |-> [k \in 1..na |-> FileSpec(k, rot + na + 4, fa, FALSE, IF k = na THEN fd ELSE "", IF k = na THEN fn ELSE "", IF k = na THEN fc ELSE "")],
-    boundary |-> b, hdrs |-> hs, smime |-> sm, mw |-> mw, style |-> st, pgp |-> pg] :
+    boundary |-> b, hdrs |-> hs, smime |-> sm, mw |-> mw, style |-> st, pgp |-> pg, cs |-> cs, pcs |-> pcs] :
      e \in ENCS, np \in 0..MAXP, ne \in 0..MAXE, na \in 0..MAXA, rot \in ROTS, b \in BOUNDARIES,
      pe \in [1..MAXP -> PENCS], fe \in FENCS, fa \in FENCS, dl \in DELS,
-     hs \in HDRS, pd \in PDESCS, fd \in FDESCS, fn \in FNAMES, fc \in FCIDS, sm \in SMIMES, mw \in MWS, st \in STYLES, pg \in PGPS}
+     hs \in HDRS, pd \in PDESCS, fd \in FDESCS, fn \in FNAMES, fc \in FCIDS, sm \in SMIMES, mw \in MWS, st \in STYLES, pg \in PGPS,
+     cs \in CHARSETS, pcs \in PCHARSETS}
 
 (* a message has at least one leaf *)
 Live(p) == SelectSeq(p.parts, LAMBDA x : ~x.del)
